@@ -2,6 +2,7 @@ import Pcore.Proofs.LatMono
 import Pcore.Proofs.LatEq
 import Pcore.Proofs.LatTransAll
 import Pcore.Proofs.LatTransGAll
+import Pcore.Proofs.LatTransDMain
 set_option linter.unusedSimpArgs false
 /-!
 # C03 — Assignability is a preorder, monotone per constructor, consistent with equality
@@ -51,7 +52,20 @@ Full statement / proved / missing
   a Struct about Tuple[String[name], t] of every member, on the String family about String[1,1], on Binary about Integer[0,255]; the
   synthesized entry tuples are lighter than the Hash / Struct member they come from, so the induction hypothesis applies to them
   (`entry_asg`).  With the rule ON a chain Iterable ⊒ Struct ⊒ Hash is a case of the permanent finding (Struct is outside `Ty.TS true`).
-  Missing: Data/RichData.  Transitivity is also checked on the implementation on related triples, sampled
+  STAGE 4, `C03_trans_alias_partial` PROVED, unbounded, both settings of the rule: the fragment `Ty.TA sfh` = EVERY type of the model except
+  Unit (two-way assignable by definition) — Data and RichData anywhere (receiver, middle, right, nested) — Struct only with the rule off,
+  Tuple type lists of int64 length (every Go slice is; needed because the model's `asgToArr` compares a Tuple with `Array[al, 0, MaxInt64]`
+  at all positions, the general rule below MaxInt64 only — for an absurdly long Tuple the two differ and transitivity of the MODEL fails).
+  The summed weight cannot carry the aliases (`Array[Data]` is heavier than `Data`), so the induction is lexicographic: the weight of the
+  left type first (`TransA`), then the rank `vw b + vw c` of the middle / right type, in which the alias' own members `Array[al]`,
+  `Hash[key, al]` rank just below the alias (`TransB`); every receiver rule recurses on a lighter left type, only the decompositions of
+  the middle / right type and the alias receivers keep it and lower the rank; the two steps that moved the middle type to the left
+  (`b ⊒ c ⊒ Undef`) are a lemma of their own (`trans_undef`).  The specialised functions of the model ARE `asg` against the member as a type
+  term (`fold_arr`, `fold_hash`, `fold_entry`); an alias' receiver rule is "a scalar member, or `Array[al]`, or `Hash[key, al]` accepts"
+  (`recv_alias_split`), and its element steps either lower the rank or have two of the three types coincide (`alias_triple`); the
+  unmodelled TypeSet / Deferred members of RichData are the predicates `accTypeSet` / `accDeferred`, monotone along `⊒` (`acc_mono`).
+  `C03_trans_rule_off`: with the rule off `asg` is transitive on ALL well-formed types without Unit — the by-specification rule is the
+  only source of intransitivity.  Missing: nothing but Unit and, with the rule ON, Struct (permanent).  Transitivity is also checked on the implementation on related triples, sampled
   universe triples and EVERY triple of the positional universe (`lat.Positional`).
 * no fault: `asg` and `tyEq` are total functions without a fault constructor; the nil dereference of `Tuple.Equals` was repaired (5e6c612).
 -/
@@ -220,6 +234,53 @@ example (cfg : Cfg) :
   · simp [asg, asgRecv, sameNullary, asgMembers, structSize, Rng.sub, Rng.all, I64.min, I64.max, isStringFamily]
   · simp [asg, asgRecv, sameNullary, isStringFamily]
   · simp [asg, asgRecv, tupZip, sameNullary, tupleSize, Rng.exact, Rng.sub, isStringFamily]
+
+/-! ### transitivity, stage 4: the built-in recursive aliases Data / RichData inside the fragment -/
+/-- Transitivity on the fragment `Ty.TA sfh`: EVERY type of the model except Unit (hereditarily), with Struct only when the
+    Struct-from-Hash rule is off, Tuple type lists of int64 length.  Data and RichData may stand anywhere — as the receiver (one of the
+    scalar members accepts, or the alias' own `Array[al]` / `Hash[key, al]` member does), in the middle, on the right (every member is
+    accepted; the unmodelled TypeSet / Deferred members of RichData as `accTypeSet` / `accDeferred`), nested.  The induction is
+    lexicographic (weight of the left type, then a rank of the middle and right type in which the alias' own members rank below the
+    alias); the model's specialised `asgToArr` / `asgToHash` / `asgToEntry` are shown to BE `asg` against the member written as a type
+    term (`fold_arr`, `fold_hash`, `fold_entry`) — which needs the int64 bound on Tuple lengths: the model compares a Tuple with
+    `Array[al, 0, MaxInt64]` at ALL its positions, the general Tuple-vs-Array rule only below MaxInt64. -/
+theorem C03_trans_alias_partial (cfg : Cfg) (sfh : Bool) (hl : ∀ s, (cfg.lower s).length = s.length) (a b c : Ty)
+    (fa : a.TA sfh) (fb : b.TA sfh) (fc : c.TA sfh) (wa : Ty.WF cfg a) (wb : Ty.WF cfg b) (wc : Ty.WF cfg c)
+    (h1 : asg cfg sfh a b = true) (h2 : asg cfg sfh b c = true) : asg cfg sfh a c = true :=
+  transD cfg sfh hl a b c fa fb fc wa wb wc h1 h2
+
+/-- the end state for the rule-off relation: `asg false` is transitive on all well-formed types without Unit (Tuple lists of int64
+    length) — the by-specification Struct-from-Hash rule is the ONLY source of intransitivity in the model (`C03_trans_fails_sfh`) -/
+theorem C03_trans_rule_off (cfg : Cfg) (hl : ∀ s, (cfg.lower s).length = s.length) (a b c : Ty)
+    (fa : a.TA false) (fb : b.TA false) (fc : c.TA false) (wa : Ty.WF cfg a) (wb : Ty.WF cfg b) (wc : Ty.WF cfg c)
+    (h1 : asg cfg false a b = true) (h2 : asg cfg false b c = true) : asg cfg false a c = true :=
+  C03_trans_alias_partial cfg false hl a b c fa fb fc wa wb wc h1 h2
+
+/-- the one-step unfolding of Data as a type term -/
+def dataUnfolded : Ty := .variant [.scalarData, .undef, .array .data Rng.pos, .hash .str .data Rng.pos]
+
+/-- non-vacuity with the aliases (rule on): the unfolded Data ⊒ Data ⊒ Array[Integer[0,9], 0, 5] -/
+example (cfg : Cfg) :
+    dataUnfolded.TA true ∧ Ty.data.TA true ∧ (Ty.array (.int ⟨0, 9⟩) ⟨0, 5⟩).TA true ∧
+    asg cfg true dataUnfolded .data = true ∧ asg cfg true .data (.array (.int ⟨0, 9⟩) ⟨0, 5⟩) = true ∧
+    asg cfg true dataUnfolded (.array (.int ⟨0, 9⟩) ⟨0, 5⟩) = true := by
+  refine ⟨by simp [dataUnfolded, Ty.TA], by simp [Ty.TA], by simp [Ty.TA], ?_, ?_, ?_⟩
+  · simp [dataUnfolded, asg, asgRecv, asgAnyL, asgToArr, asgToArrAny, asgToHash, asgToHashAny, sameNullary, isStringFamily, floatAll,
+      Rng.sub, Rng.pos, Alias.ty, Alias.key]
+  · simp [asg, asgRecv, sameNullary, isStringFamily, floatAll, Rng.sub, Rng.pos, Rng.all, I64.max, I64.min]
+  · simp [dataUnfolded, asg, asgRecv, asgAnyL, sameNullary, isStringFamily, floatAll, Rng.sub, Rng.pos, Rng.all, I64.max, I64.min]
+
+/-- non-vacuity (rule off, RichData, an alias in the middle under a Variant, a Struct on the right):
+    Optional[RichData] ⊒ Variant[Data, Binary] ⊒ Struct[{a => Tuple[String, Undef]}] -/
+example (cfg : Cfg) :
+    (Ty.optional .richData).TA false ∧ (Ty.struct [("a", false, .tuple [.str, .undef] none)]).TA false ∧
+    asg cfg false (.optional .richData) (.variant [.data, .bin]) = true ∧
+    asg cfg false (.variant [.data, .bin]) (.struct [("a", false, .tuple [.str, .undef] none)]) = true := by
+  refine ⟨by simp [Ty.TA], by simp [Ty.TA, I64.max], ?_, ?_⟩
+  · simp [asg, asgRecv, asgAllR, asgAnyL, asgToArr, asgToArrAny, asgToHash, asgToHashAny, sameNullary, isStringFamily, floatAll,
+      Rng.sub, Rng.pos, Alias.ty, Alias.key]
+  · simp [asg, asgRecv, asgAllR, asgAnyL, asgMembers, tupZip, tupleSize, structSize, Rng.exact, sameNullary, isStringFamily, floatAll,
+      Rng.sub, Rng.pos, Rng.all, I64.max, I64.min]
 
 def C03_trans : Prop :=
   ∀ (cfg : Cfg) (sfh : Bool) (a b c : Ty), Ty.WF cfg a → Ty.WF cfg b → Ty.WF cfg c →
